@@ -130,6 +130,10 @@ func VerifyFunc(p *Program, fc *FuncContract) (g *Gen, err error) {
 			goal := implies(f.retReach[r], env.trBool(c.E))
 			goals = append(goals, goal)
 			sub := &Oblig{Name: fmt.Sprintf("%s@ret%d", o.Name, r), Kind: "ensures", Goal: goal, NAsserts: len(g.asserts), Text: c.Text, Pos: o.Pos}
+			if len(fc.Witness) == 0 && fc.Opts["scenario"] != "" {
+				sub.ReplayTemplate = fc.Opts["scenario"]
+				sub.ReplayPkgDir = strings.TrimPrefix(strings.TrimPrefix(fc.Pkg, modPath), "/")
+			}
 			for _, w := range fc.Witness {
 				wv := env.tr(w.E)
 				if wv.Untyped {
